@@ -374,6 +374,10 @@ class Verdict:
         return 0
 
 
+def slug(s):
+    return re.sub(r"[^A-Za-z0-9]+", "_", s)[:40].strip("_")
+
+
 def vacuous(msg):
     raise ToolError("vacuous run: " + msg)
 
@@ -383,7 +387,7 @@ def model_check_part(v, name, module, cfg, tier, key_prefix, workers=None, timeo
     """Run TLC on a bounded model; an invariant/property violation on the model
     is a design-level violation of the property (the model is bound to the code
     by the replay/trace parts of the same check)."""
-    r, out = run_tlc(module, cfg, tier, f"{v.prop}_{name}", workers=workers, timeout=timeout,
+    r, out = run_tlc(module, cfg, tier, f"{v.prop}_{slug(name)}", workers=workers, timeout=timeout,
                      coverage=coverage, extra=extra)
     v.add_model(name, r, exhaustive=exhaustive, note=note)
     if r["errors"]:
@@ -396,7 +400,7 @@ def model_check_part(v, name, module, cfg, tier, key_prefix, workers=None, timeo
 
 def replay_part(v, name, module, cfg, engine, tier, key_prefix, stride=1, timeout=1200, last_only=False,
                 vh_args=None, min_cases=1):
-    res = export_replay(module, cfg, engine, tier, f"{v.prop}_{name}", seed=v.seed, stride=stride,
+    res = export_replay(module, cfg, engine, tier, f"{v.prop}_{slug(name)}", seed=v.seed, stride=stride,
                         timeout=timeout, last_only=last_only, vh_args=vh_args)
     v.add_replay(name, res)
     if res["tlc"]["errors"]:
@@ -416,7 +420,7 @@ def replay_part(v, name, module, cfg, engine, tier, key_prefix, stride=1, timeou
 
 def trace_part(v, name, engine, module, cfg, tier, key_prefix, runs, steps, chunks=1, extra=None,
                extra_env=None):
-    summ, rej = record_and_validate(engine, module, cfg, tier, f"{v.prop}_{name}", v.seed, runs, steps,
+    summ, rej = record_and_validate(engine, module, cfg, tier, f"{v.prop}_{slug(name)}", v.seed, runs, steps,
                                     chunks=chunks, extra=extra, extra_env=extra_env)
     v.add_traces(name, summ)
     if rej:
